@@ -402,8 +402,7 @@ def generate(repo=None, out_path=None):
         # break C17 (through `failures`), not the build of the other properties' driver
         return {"obligations": obligations, "failures": failures}
     if not (os.path.exists(out_path) and open(out_path).read() == new):
-        with open(out_path, "w") as fh:
-            fh.write(new)
+        __import__("relicbuild").write_if_changed(out_path, new)
     return {"obligations": obligations, "failures": failures}
 
 
